@@ -121,6 +121,7 @@ type inlCand struct {
 	decl      *ast.AssignStmt
 	blankUses int
 	aliased   bool // still the source of an alias definition: its calls are not all visible yet
+	keepDecl  bool // defined inside a tuple definition: the statement stays
 	// properties
 	hasDefer, hasRecover bool
 	callsCand            map[*types.Func]bool
@@ -323,14 +324,29 @@ func (in *inliner) closureCandidates() map[*types.Var]*inlCand {
 			})
 			ast.Inspect(file, func(n ast.Node) bool {
 				as, ok := n.(*ast.AssignStmt)
-				if !ok || as.Tok != token.DEFINE || len(as.Lhs) != 1 || len(as.Rhs) != 1 {
+				if !ok || as.Tok != token.DEFINE || len(as.Lhs) != len(as.Rhs) {
 					return true
 				}
-				id, ok1 := as.Lhs[0].(*ast.Ident)
-				lit, ok2 := as.Rhs[0].(*ast.FuncLit)
+				// one literal per definition statement (a tuple definition - what binding the arguments of an inlined
+				// helper leaves behind - may hold one among other values; the statement then stays when the literal is no longer called)
+				pos := -1
+				for i := range as.Rhs {
+					if _, isLit := as.Rhs[i].(*ast.FuncLit); isLit {
+						if pos >= 0 {
+							return true
+						}
+						pos = i
+					}
+				}
+				if pos < 0 {
+					return true
+				}
+				id, ok1 := as.Lhs[pos].(*ast.Ident)
+				lit, ok2 := as.Rhs[pos].(*ast.FuncLit)
 				if !ok1 || !ok2 || id.Name == "_" {
 					return true
 				}
+				tuple := len(as.Lhs) > 1
 				if _, inBlock := parent[as].(*ast.BlockStmt); !inBlock {
 					return true
 				}
@@ -350,7 +366,7 @@ func (in *inliner) closureCandidates() map[*types.Var]*inlCand {
 				if !ok || sig.Variadic() {
 					return true
 				}
-				c := &inlCand{sig: sig, fd: &ast.FuncDecl{Name: id, Type: lit.Type, Body: lit.Body}, pkg: p, file: file, lit: lit, v: v, decl: as, callsCand: map[*types.Func]bool{}}
+				c := &inlCand{sig: sig, fd: &ast.FuncDecl{Name: id, Type: lit.Type, Body: lit.Body}, pkg: p, file: file, lit: lit, v: v, decl: as, keepDecl: tuple, callsCand: map[*types.Func]bool{}}
 				ast.Inspect(lit.Body, func(m ast.Node) bool {
 					switch x := m.(type) {
 					case *ast.DeferStmt:
@@ -453,6 +469,9 @@ func (in *inliner) funcAliases(edits map[string][]textEdit, busy map[string][][2
 				calls  []*ast.Ident
 				blank  bool
 				bad    bool
+				// a method expression is not looked up by name at the call site
+				noScope bool
+				method  string
 			}
 			als := map[*types.Var]*alias{}
 			var consider func(n ast.Node, lhs *ast.Ident, rhs ast.Expr)
@@ -465,6 +484,15 @@ func (in *inliner) funcAliases(edits map[string][]textEdit, busy map[string][][2
 					return
 				}
 				if _, isSig := v.Type().Underlying().(*types.Signature); !isSig {
+					return
+				}
+				if sel, isSel := ast.Unparen(rhs).(*ast.SelectorExpr); isSel {
+					// a method expression: (*T).M - calling the variable is calling the method expression
+					if si := info.Selections[sel]; si != nil && si.Kind() == types.MethodExpr {
+						if mf, ok := si.Obj().(*types.Func); ok {
+							als[v] = &alias{v: v, target: mf, name: "(" + in.nodeText(sel) + ")", def: n, noScope: true, method: mf.Name()}
+						}
+					}
 					return
 				}
 				rid, ok := ast.Unparen(rhs).(*ast.Ident)
@@ -584,7 +612,7 @@ func (in *inliner) funcAliases(edits map[string][]textEdit, busy map[string][][2
 						okAll = false
 						break
 					}
-					if _, at := sc.LookupParent(a.name, c.Pos()); at != a.target {
+					if _, at := sc.LookupParent(a.name, c.Pos()); at != a.target && !a.noScope {
 						okAll = false
 					}
 				}
@@ -604,6 +632,26 @@ func (in *inliner) funcAliases(edits map[string][]textEdit, busy map[string][][2
 					continue
 				}
 				for _, c := range a.calls {
+					if a.method != "" {
+						// f(x, rest…) with f = (*T).M  ->  (x).M(rest…): a plain method call
+						call, ok := parent[c].(*ast.CallExpr)
+						if !ok || len(call.Args) == 0 {
+							continue
+						}
+						var rest []string
+						for _, ar := range call.Args[1:] {
+							rest = append(rest, in.nodeText(ar))
+						}
+						txt := "(" + in.nodeText(call.Args[0]) + ")." + a.method + "(" + strings.Join(rest, ", ")
+						if call.Ellipsis.IsValid() {
+							txt += "..."
+						}
+						txt += ")"
+						_, x := in.rawOff(call.Pos())
+						_, y := in.rawOff(call.End())
+						edits[fname] = append(edits[fname], textEdit{x, y, txt + in.dir(call.End())})
+						continue
+					}
 					_, x := in.rawOff(c.Pos())
 					_, y := in.rawOff(c.End())
 					text := a.name
@@ -816,7 +864,7 @@ func (in *inliner) round() (map[string][]textEdit, bool) {
 	}
 	for v, c := range clos {
 		key := "closure " + v.Name() + "@" + in.w.Pos(c.decl.Pos())
-		if closUses[v]-c.blankUses == 0 && in.inlined[key] > 0 && !c.aliased {
+		if closUses[v]-c.blankUses == 0 && in.inlined[key] > 0 && !c.aliased && !c.keepDecl {
 			file, a := in.rawOff(c.decl.Pos())
 			_, b := in.rawOff(c.decl.End())
 			src := in.src(file)
